@@ -138,6 +138,11 @@ def children(node):
         if many:
             for i, x in enumerate(v or []):
                 out.append((s, i, x))
+        elif isinstance(v, list):
+            # pycparser quirk: `_Static_assert(..)` as the sole body of a loop/branch leaves a Python list in a
+            # single-child slot; enumerate it (such a tree is not wf_pyc and is skipped by the model streams)
+            for i, x in enumerate(v):
+                out.append((s, i, x))
         elif v is not None:
             out.append((s, 0, v))
     return out
